@@ -294,3 +294,16 @@ func HasSchedule() bool { return len(schedule) > 0 }
 // PreemptBound sets the preemption bound of the symbolic scheduler for the
 // rest of the path (no effect natively).
 func PreemptBound(n int) {}
+
+// MapOrder(true): from here on the iteration order of every map range is an
+// environment choice of the symbolic run (natively Go's own random order
+// applies; a finding's order is reproduced natively by retrying).
+func MapOrder(permute bool) {
+	if permute {
+		MapOrderUsed = true
+	}
+}
+
+// MapOrderUsed: the entry depends on Go's random map iteration order; the
+// native replay repeats it until the recorded failure shows (or gives up).
+var MapOrderUsed bool
